@@ -56,7 +56,7 @@ def parse_lst(path):
         for line in fh:
             parts = [p.strip() for p in line.split(',')]
             if len(parts) >= 3:
-                rows.append((int(float(parts[0])), parts[1]))
+                rows.append((int(float(parts[0])), parts[1], ','.join(parts[2:]).strip()))
     return rows
 
 
@@ -176,7 +176,7 @@ def run_case(ctx, c):
     names = parse_lst(lst)
     want_names = ['Time [s]'] + [ss.dae.x_name[a] for a in xsel] + [ss.dae.y_name[a] for a in ysel]
     # independent naming oracle (variable, model, idx of the slot owner)
-    owner = {}
+    owner, owner_fmt = {}, {}
     for mname, mdl in ss.models.items():
         if mdl.n == 0 or not mdl.flags.address:
             continue
@@ -185,8 +185,18 @@ def run_case(ctx, c):
                 dev = (idx if (isinstance(idx, str) and mname in idx) else '%s %s' % (mname, idx)).replace('_', ' ')
                 nm = '%s %s' % (vname, dev)
                 owner[(var.v_code, int(a))] = nm
+                owner_fmt[(var.v_code, int(a))] = '$%s$ %s' % (var.tex_name, dev)
     indep = ['Time [s]'] + [owner.get(('x', a)) for a in xsel] + [owner.get(('y', a)) for a in ysel]
+    names_fmt = [r[2] for r in names]
+    names = [(r[0], r[1]) for r in names]
     got_names = [nm for _, nm in names][:len(want_names)]
+    # the formatted (LaTeX) label of a column names the same variable of the same device
+    indep_fmt = [None] + [owner_fmt.get(('x', a)) for a in xsel] + [owner_fmt.get(('y', a)) for a in ysel]
+    for k in range(1, min(len(indep_fmt), len(names_fmt))):
+        if indep_fmt[k] is not None and names_fmt[k] != indep_fmt[k]:
+            ctx.fail('formatted_label_names_wrong_variable', dict(case=brief, column=k, label=names_fmt[k], owner=indep_fmt[k], plain_label=got_names[k]),
+                     sig=sig)
+            break
     if got_names != indep:
         k = next((i for i, (g, w) in enumerate(zip(got_names, indep)) if g != w), -1)
         ctx.fail('column_label_names_wrong_variable', dict(case=brief, column=k, label=got_names[k] if 0 <= k < len(got_names) else None,
